@@ -1,6 +1,7 @@
 package main
 
 import (
+	"fmt"
 	"sort"
 	"go/ast"
 	"go/token"
@@ -607,4 +608,141 @@ func panicConversionHelper(s *src, fd *ast.FuncDecl) bool {
 		return ok && s.str(i.Cond) == k && is(i.Body.List[0], "return "+v) && is(l[1], "return "+sentinel)
 	}
 	return false
+}
+
+// panicFacts — the library turns failures of the link into panics (recovered into setErr by the caller's deferred
+// handler). `panicSitesCanonical`: every `panic(…)` in the library is (a) one of the OWN statements of an
+// `if e != nil { … }` / `if e := …; e != nil { … }` body handing on that very variable `e` (a plain identifier), or
+// of a failed check handing on an `Err…` sentinel, or (b) the body of a select case on a `….Done()` channel, handing
+// on that context's `Err()`.  Anything else (a panic on a RESULT, on a flag, on a per-call outcome) would turn an
+// ordinary outcome into the end of the link.
+func panicFacts(s *src, f *facts) {
+	var bad []string
+	n := 0
+	for name, file := range s.files {
+		var stack []ast.Node
+		ast.Inspect(file, func(x ast.Node) bool {
+			if x == nil {
+				stack = stack[:len(stack)-1]
+				return true
+			}
+			stack = append(stack, x)
+			c, ok := x.(*ast.CallExpr)
+			if !ok || s.str(c.Fun) != "panic" || len(c.Args) != 1 {
+				return true
+			}
+			n++
+			arg := s.str(c.Args[0])
+			okSite := false
+			// nearest enclosing block's owner
+			for k := len(stack) - 2; k >= 0 && !okSite; k-- {
+				switch v := stack[k].(type) {
+				case *ast.ExprStmt, *ast.BlockStmt:
+					continue
+				case *ast.IfStmt:
+					cond := s.str(v.Cond)
+					if k+1 < len(stack) && stack[k+1] == ast.Node(v.Body) {
+						// `if <ident> != nil { panic(<ident>) }` — the tested error variable itself (whatever its name) — or
+						// a sentinel after a failed assertion / check
+						if be, isBin := v.Cond.(*ast.BinaryExpr); isBin && be.Op == token.NEQ && s.str(be.Y) == "nil" {
+							if id, isId := be.X.(*ast.Ident); isId && arg == id.Name {
+								okSite = true
+							}
+						}
+						if (cond == "!ok" || strings.HasSuffix(cond, "!= nil")) && strings.HasPrefix(arg, "Err") {
+							okSite = true
+						}
+					}
+					k = -1
+				case *ast.CommClause:
+					if v.Comm != nil && strings.HasSuffix(s.str(v.Comm), ".Done()") && strings.HasSuffix(arg, ".Err()") &&
+						strings.TrimSuffix(strings.TrimPrefix(s.str(v.Comm), "<-"), ".Done()") == strings.TrimSuffix(arg, ".Err()") {
+						okSite = true
+					}
+					k = -1
+				default:
+					k = -1
+				}
+			}
+			if !okSite {
+				bad = append(bad, name+":"+s.pos(c))
+			}
+			return true
+		})
+	}
+	ev := fmt.Sprintf("all %d", n)
+	if len(bad) > 0 {
+		sort.Strings(bad)
+		ev = strings.Join(bad, ",")
+	}
+	f.b("panicSitesCanonical", len(bad) == 0 && n > 0, ev)
+}
+
+// wrapperFacts (raw AST) — LinkMessage wraps the four transport functions in local closures that first look at the
+// link's context.  `ioWrappersNonBlocking`: such a wrapper (a local `name := func…` whose body looks at a `….Done()`
+// channel) never waits for anything but the transport call it wraps: every select in it has a `default`, it sends on
+// no channel, takes no lock, waits on nothing; and its last statement returns.  (A window / semaphore / queue in a
+// wrapper couples otherwise independent calls.)
+func wrapperFacts(s *src, f *facts) {
+	lm := linkMessage(s)
+	ok, n := true, 0
+	where := ""
+	if lm == nil {
+		f.b("ioWrappersNonBlocking", false, "")
+		return
+	}
+	for _, a := range all[*ast.AssignStmt](lm.Body, nil) {
+		if len(a.Lhs) != 1 || len(a.Rhs) != 1 {
+			continue
+		}
+		fl, isLit := a.Rhs[0].(*ast.FuncLit)
+		if !isLit || !strings.HasSuffix(s.strRaw(a.Lhs[0]), "Ctx") {
+			continue
+		}
+		n++
+		good := true
+		for _, sel := range all[*ast.SelectStmt](fl.Body, nil) {
+			hasDefault := false
+			for _, cl := range sel.Body.List {
+				cc := cl.(*ast.CommClause)
+				if cc.Comm == nil {
+					hasDefault = true
+				} else if _, send := cc.Comm.(*ast.SendStmt); send {
+					good = false
+				}
+			}
+			good = good && hasDefault
+		}
+		if len(all[*ast.SendStmt](fl.Body, nil)) > 0 || len(all[*ast.GoStmt](fl.Body, nil)) > 0 {
+			good = false
+		}
+		for _, c := range all[*ast.CallExpr](fl.Body, nil) {
+			fn := s.strRaw(c.Fun)
+			if strings.HasSuffix(fn, ".Lock") || strings.HasSuffix(fn, ".RLock") || strings.HasSuffix(fn, ".Wait") || strings.HasSuffix(fn, ".Acquire") {
+				good = false
+			}
+		}
+		// receives outside a select case block
+		for _, u := range all[*ast.UnaryExpr](fl.Body, nil) {
+			if u.Op.String() == "<-" {
+				inCase := false
+				for _, cc := range all[*ast.CommClause](fl.Body, nil) {
+					if cc.Comm != nil && contains(cc.Comm, u) {
+						inCase = true
+					}
+				}
+				if !inCase {
+					good = false
+				}
+			}
+		}
+		if !good {
+			ok = false
+			where = s.pos(a)
+		}
+	}
+	if where == "" {
+		where = fmt.Sprintf("%d wrappers", n)
+	}
+	f.b("ioWrappersNonBlocking", ok, where)
 }
